@@ -356,6 +356,8 @@ def make_param(I, name, spec, receiver):
         return receiver
     if isinstance(spec, tuple) and spec[0] == "const":
         return spec[1]
+    if isinstance(spec, tuple) and spec[0] == "exc":
+        return ExcObj(I.w.lib.exc_class(spec[1]), ())
     if isinstance(spec, T):
         t = spec
         if t.kind == "opt":
